@@ -728,6 +728,9 @@ static void obs(int inst, const FSM::Instance& m) {
 	{ FSM::Instance& mm = const_cast<FSM::Instance&>(m); if (&ctxRef(m.context()) != &ctxRef(mm.context())) x += " APIX=C06:instance-const-context"; }
 #endif
 	if (FSM::Instance::template stateId<St<0>>() != 0 || FSM::Instance::template stateId<St<H_N - 1>>() != H_N - 1) x += " APIX=C14:instance-stateId-of-type";
+	{ FSM::Instance& mm = const_cast<FSM::Instance&>(m);          // access<T>() through a const machine designates the state object itself, not a copy of it
+	  if (static_cast<const void*>(&m.template access<St<0>>()) != static_cast<const void*>(&mm.template access<St<0>>()) ||
+	      static_cast<const void*>(&m.template access<St<H_N - 1>>()) != static_cast<const void*>(&mm.template access<St<H_N - 1>>())) x += " APIX=C14:const-access-designates-another-object APIX=C18:const-access-returns-a-dangling-reference"; }
 	if (m.isActive(ffsm2::StateID(0)) != m.template isActive<St<0>>() || m.isActive(ffsm2::StateID(H_N - 1)) != m.template isActive<St<H_N - 1>>()) x += " APIX=C06:isActive-id-vs-type";
 #if H_MANUAL
 	o << " on=" << (m.isActive() ? 1 : 0);
